@@ -19,6 +19,7 @@ type Recorder struct {
 	Stats map[string]int
 
 	lastAtropos hash.Event
+	curJump     int
 }
 
 func NewRecorder(w io.Writer) *Recorder {
@@ -73,6 +74,9 @@ func (r *Recorder) blocksJSON(s *Scenario, blocks []BlockRec) []line {
 			r.Stats["seals"]++
 			if len(out) > 0 {
 				r.Stats["seals_inside_a_cascade"]++ // the sealing block is not the first block decided by this call
+				if r.curJump >= 2 {
+					r.Stats["seals_inside_a_cascade_of_a_multi_frame_root"]++
+				}
 			}
 		}
 		out = append(out, line{"atr": s.idOf(b.Atropos), "fr": int(b.Frame), "ch": ch, "evs": evs, "seal": seal})
@@ -108,6 +112,10 @@ func (r *Recorder) ProcessLine(s *Scenario, in *Inst, ev *Ev, err error, blocks 
 	l := evFields(s, ev, ev.Frame)
 	l["op"] = "p"
 	l["ok"] = err == nil
+	r.curJump = 0
+	if sp, ok := s.ByID[ev.SP]; ok {
+		r.curJump = int(ev.Frame) - int(sp.Frame)
+	}
 	l["blocks"] = r.blocksJSON(s, blocks)
 	l["ep"] = int(in.Store.GetEpoch())
 	l["ldf"] = int(in.Store.GetLastDecidedFrame())
